@@ -37,6 +37,7 @@ class MemTransport(asyncio.Transport):
         self.eof_received = False
         self.bytes_in = 0
         self.node = None
+        self.stop_frames_written = 0
 
     # -- asyncio.Transport API ---------------------------------------------------
     def set_protocol(self, p):
@@ -60,6 +61,9 @@ class MemTransport(asyncio.Transport):
     def write(self, data):
         if self.closing:
             return
+        if self.side == "mosaik" and b'["stop"' in bytes(data):
+            # a 'stop' request frame leaves mosaik (kept outside the history on purpose)
+            self.stop_frames_written += 1
         if self.peer.closing or self.peer.lost:
             # peer has gone: like TCP, the first write is swallowed, a later one fails
             self.dead_writes += 1
